@@ -148,6 +148,7 @@ def run(shard):
     import os as _os
 
     import dis as _dis
+    import gc as _gc
     _dis_lists = [getattr(_dis, n) for n in ("hasconst", "hasname", "hasjrel", "hasjabs", "haslocal", "hascompare", "hasfree", "cmp_op") if hasattr(_dis, n)]
 
     def lib_globals():
@@ -186,12 +187,13 @@ def run(shard):
     def global_state():
         return (_sys.getrecursionlimit(), getattr(_sys, "get_int_max_str_digits", lambda: None)(), len(_sys.path), len(_warnings.filters),
                 _os.getcwd(), _sys.getswitchinterval(), len(_os.environ), _sys.gettrace() is None,
+                (_gc.isenabled(), _gc.get_threshold(), _gc.get_debug()), _sys.getprofile() is None, _sys.dont_write_bytecode,
                 hash(frozenset(_dis.opmap.items())), hash(tuple(_dis.opname)), tuple(tuple(l_) for l_ in _dis_lists),
                 lib_globals())
 
     def describe_global_change(g, g2):
         names = ["recursion limit", "int_max_str_digits", "len(sys.path)", "warning filters", "cwd", "switch interval", "len(environ)",
-                 "no trace function", "dis.opmap", "dis.opname", "dis.has* lists", "module globals of the library"]
+                 "no trace function", "gc (enabled, thresholds, debug)", "no profile function", "dont_write_bytecode", "dis.opmap", "dis.opname", "dis.has* lists", "module globals of the library"]
         out = []
         for n_, a_, b_ in zip(names, g, g2):
             if a_ != b_:
@@ -354,7 +356,34 @@ def run(shard):
         rng = H.rng_for(shard.get("seed", 0), "c12", id_)
         if len(stress_items) < 24 and 40 <= sum(len(c_.co_code) for c_, _d in H.iter_code(code)) <= 2500:
             stress_items.append((state["case"], code))
-        x_first = call("D", CodeData.from_code, code)
+        # a third of the histories run in a process whose adjustable state is NOT the default: a call that puts a default back
+        # instead of what it found is a change of the caller's state
+        perturbed = rng.random() < 0.34
+        if perturbed:
+            H.count("perturbed_histories")
+            saved = (_gc.isenabled(), _gc.get_threshold(), _sys.getrecursionlimit(), _sys.getswitchinterval(),
+                     getattr(_sys, "get_int_max_str_digits", lambda: None)())
+            _gc.disable()
+            _gc.set_threshold(701, 11, 9)
+            _sys.setrecursionlimit(saved[2] + 7)
+            _sys.setswitchinterval(0.0041)
+            if saved[4] is not None:
+                _sys.set_int_max_str_digits(5000)
+        try:
+            x_first = call("D", CodeData.from_code, code)
+            if x_first[1] is None:
+                for op_ in ("E", "N", "J"):
+                    r_ = call(op_ + "'", {"E": x_first[0].to_code, "N": x_first[0].normalize, "J": x_first[0].to_json_data}[op_])
+                    if op_ == "J" and r_[1] is None:
+                        call("L'", CodeData.from_json_data, r_[0])
+        finally:
+            if perturbed:
+                (_gc.enable if saved[0] else _gc.disable)()
+                _gc.set_threshold(*saved[1])
+                _sys.setrecursionlimit(saved[2])
+                _sys.setswitchinterval(saved[3])
+                if saved[4] is not None:
+                    _sys.set_int_max_str_digits(saved[4])
         if x_first[1] is not None:
             H.count("decode_raised")
             continue
